@@ -41,6 +41,7 @@ CORPUS = {
         M("alias-without-single-assignment", G, [("                can_assign_directly = not sym_data.is_overwritten and not (\n                    isinstance(value, IC10Register) and value.is_overwritten\n                )\n", "                can_assign_directly = True\n")], ["R01.c"]),
         M("inline-arg-alias-unguarded", G, [("                if arg_sym.is_overwritten:\n                    # need to copy", "                if False:\n                    # need to copy")], ["R01.c"]),
         _GUARD_CONSTPROP,
+        M("list-index-overwritten-by-its-result", G, [("        if sym is index:\n            # 'i = [..][i]': the instructions below still read the index after\n            # the first of them has written the result\n            sym = self.get_intermediate_symbol(node, True)\n", "")], ["R01.i"]),
         M("ifexp-else-arm-gathered-twice", G, [("            if isinstance(node, nodes.If):\n                for child in node.orelse:\n                    self._visit_node(child)\n", "            if isinstance(node, nodes.If):\n                for child in node.orelse:\n                    self._visit_node(child)\n            if isinstance(node, nodes.IfExp):\n                self._visit_node(node.orelse)\n")], ["R01.p"]),
         M("alias-of-a-reassigned-value", G, [("                can_assign_directly = not sym_data.is_overwritten and not (\n                    isinstance(value, IC10Register) and value.is_overwritten\n                )\n", "                can_assign_directly = not sym_data.is_overwritten\n")], ["R01.c"]),
         M("prune-name-read-once", CP, [("            if sym_data.is_read == 0:\n                # print", "            if sym_data.is_read <= 1:\n                # print")], ["R01.d"]),
